@@ -2,8 +2,8 @@ package checks
 
 import (
 	"bytes"
-	"regexp"
 	"fmt"
+	"regexp"
 	"strings"
 
 	"mvdan.cc/sh/v3/expand"
